@@ -224,7 +224,7 @@ bool TasgridWrapper::checkSane() const{
                  "no means of output are specified, you should specify -gridfile, -outfile or -print");
     // cannot output to gridfile and outfile and print are not set
     test.fail_if(outfilename.empty() and not printCout
-                 and com.inside(CArr<16>{command_makequadrature, command_makeexoquad, command_getinterweights, command_evaluate,
+                 and com.inside(CArr<17>{command_makequadrature, command_makeexoquad, command_getinterweights, command_getdiffweights, command_evaluate,
                                  command_evalhierarchical_dense, command_evalhierarchical_sparse, command_differentiate,
                                  command_get_candidate_construction, command_getquadrature, command_getpoints,
                                  command_getneeded, command_getcoefficients, command_gethsupport, command_integrate,
@@ -242,7 +242,7 @@ bool TasgridWrapper::checkSane() const{
     test.fail_if(gridfilename.empty() and not com.inside(makecoms, CArr<2>{command_makequadrature, command_makeexoquad}),
                  "must specify valid -gridfile");
     test.fail_if(xfilename.empty()
-                 and com.inside(CArr<6>{command_getinterweights, command_evaluate, command_evalhierarchical_dense,
+                 and com.inside(CArr<7>{command_getinterweights, command_getdiffweights, command_evaluate, command_evalhierarchical_dense,
                                  command_evalhierarchical_sparse, command_differentiate, command_load_construction}),
                  "must specify valid -pointsfile");
 
